@@ -223,20 +223,31 @@ def truncated_quotient_findings(fn):
     between.  The float result of an exact integer quantity may sit one ulp below the integer; truncation then loses 1."""
     inexact = set()
     changed = True
+
+    def rounds(c):
+        """round(x) or the floor(x + 0.5) idiom: the nearest whole number, whatever the last bit of x"""
+        if not isinstance(c, ast.Call):
+            return False
+        if norm(c.func) == 'round':
+            return True
+        if norm(c.func) in ('math.floor', 'floor', 'int') and len(c.args) == 1 and isinstance(c.args[0], ast.BinOp) and isinstance(c.args[0].op, ast.Add):
+            a = c.args[0]
+            return any(isinstance(s_, ast.Constant) and s_.value == 0.5 for s_ in (a.left, a.right))
+        return False
+
     def expr_inexact(e):
+        if rounds(e):
+            return False
         for x in ast.walk(e):
-            if isinstance(x, ast.Call) and norm(x.func) == 'round':
-                return False if x is e else None
-        for x in ast.walk(e):
+            under_round, p = False, x
+            while p is not None and p is not e:
+                p = getattr(p, '_sa_parent', None)
+                if p is not None and rounds(p):
+                    under_round = True
+            if under_round:
+                continue
             if isinstance(x, ast.BinOp) and isinstance(x.op, ast.Div) and not (isinstance(x.left, ast.Constant) and isinstance(x.right, ast.Constant)):
-                # a division inside round(...) is repaired by the rounding
-                p, rounded = x, False
-                while p is not None and p is not e:
-                    p = getattr(p, '_sa_parent', None)
-                    if isinstance(p, ast.Call) and norm(p.func) == 'round':
-                        rounded = True
-                if not rounded:
-                    return True
+                return True
             if isinstance(x, ast.Name) and x.id in inexact:
                 return True
         return False
@@ -257,13 +268,33 @@ def truncated_quotient_findings(fn):
     out = []
     for n in walk_no_nested(fn):
         arg = None
-        if isinstance(n, ast.Call) and norm(n.func) in ('int', 'math.floor', 'math.trunc', 'floor', 'trunc') and len(n.args) == 1:
+        if isinstance(n, ast.Call) and norm(n.func) in ('int', 'math.floor', 'math.trunc', 'floor', 'trunc') and len(n.args) == 1 and not rounds(n):
             arg = n.args[0]
         elif isinstance(n, ast.BinOp) and isinstance(n.op, ast.FloorDiv) and isinstance(n.right, ast.Constant) and n.right.value == 1:
             arg = n.left
         if arg is not None and expr_inexact(arg):
             out.append((norm(n)[:70], n))
     return out
+
+
+def sample_count_getters(m, run):
+    """FD2 on the sample-size getters: the number of samples is recovered from 1 / delta, which is a float that may sit one ulp below
+    the whole number the setter was given; every getter rounds (round / floor(x + 0.5)), none truncates - otherwise the tuple handed to the
+    evaluators and the per-direction getters disagree about the grid size"""
+    n = 0
+    for ck, ci in sorted(m.classes.items()):
+        if ck[0] != 'abstract':
+            continue
+        for name, fi in sorted(ci.getters.items()):
+            if not name.startswith('sample_size'):
+                continue
+            n += 1
+            bad = truncated_quotient_findings(fi.node)
+            run.ob('FD2.no-truncated-float-quotient', fi.key + ' (getter)', not bad, 'the count is rounded to the nearest whole number' if not bad else
+                   '`%s` truncates the float quotient 1 / delta: a sample size n stored as delta = 1 / n reads back as n - 1 whenever 1 / (1 / n) lands below n '
+                   '(first at n = 49), while the sibling getters round' % bad[0][0], site(fi, bad[0][1]) if bad else '')
+    if n < 6:
+        raise AnalysisError('FD2: only %d sample_size getters found' % n)
 
 
 def zero_guard_findings(fn):
